@@ -254,8 +254,9 @@ def batch(core, mod, prop, seed, n, args, scratch, t0):
 
     replay_paths = []
     seen_sigs = set()
+    collateral = []
     for idx, v in new_violations:
-        if v["sig"] in seen_sigs:
+        if v["sig"] in seen_sigs or (collateral and v["sig"].startswith(("process-died", "process-hung"))):
             continue
         seen_sigs.add(v["sig"])
         if len(replay_paths) >= 3:
@@ -265,6 +266,13 @@ def batch(core, mod, prop, seed, n, args, scratch, t0):
         spec = core.make_spec(vmod, seed, idx)
         first = core.execute_isolated(vmod, spec)
         sig = core.outcome_sig(first)
+        if sig is None and v["sig"].startswith(("process-died", "process-hung")):
+            # a worker died or hung at this run, but the run is clean in a process of its own: the worker's memory was
+            # damaged by an earlier run of the same process (compiled code). That earlier run reports its own
+            # violation; this entry is kept aside and only counts as a harness error if nothing else is found
+            collateral.append((idx, v["sig"], first["outcome"]))
+            seen_sigs.discard(v["sig"])
+            continue
         if sig is None:
             print(f"HARNESS-ERROR: run {idx} reported {v['sig']} in the batch but not when re-executed alone "
                   f"(outcome={first['outcome']})", file=sys.stderr)
@@ -284,6 +292,14 @@ def batch(core, mod, prop, seed, n, args, scratch, t0):
                       f, indent=1, default=core._json_default)
         replay_paths.append((path, sig, idx))
 
+    if collateral and not replay_paths:
+        idx, vsig, outcome = collateral[0]
+        print(f"HARNESS-ERROR: run {idx} reported {vsig} in the batch but not when re-executed alone "
+              f"(outcome={outcome}) and no other run of the batch reports a violation", file=sys.stderr)
+        return 2
+    for idx, vsig, outcome in collateral[:3]:
+        print(f"NOTE: run {idx} reported {vsig} in the batch but is clean in a process of its own; attributed to memory "
+              f"damage left behind by an earlier violating run of the same worker process")
     wall = time.monotonic() - t0
     stale, rebuilt = BUILD_INFO
     if not args.no_evidence:
